@@ -89,4 +89,65 @@ def shrink (e : Box) (vars : List Nat) (k : Nat) : Box :=
 def findCert (eqs : List (List Dag × Dag)) (e u : Box) (vars : List Nat) (tries : Nat) : Option Nat :=
   (List.range tries).find? fun k => certifiedBy eqs e u vars (shrink e vars k)
 
+/-! ### Newton contractions, feasibility claims (C09) -/
+
+/-- interval evaluation of one equation over the box excludes 0 (or the expression is nowhere defined) -/
+def exclZero (eqs : List (List Dag × Dag)) (b : Box) : Bool :=
+  eqs.any fun q =>
+    match Eval.root Alg.itv b (Eval.buildCalls Alg.itv q.1) q.2 with
+    | some v => v.d.any fun I => !Itv.containsExt I (.fin 0)
+    | none => false
+
+def widthQ : Itv → Option Rat
+  | .mk (.fin a) (.fin b) => some (b - a)
+  | _ => none
+
+/-- split the box at the midpoint of its widest (bounded) coordinate -/
+def splitMid (b : Box) : Option (Box × Box) :=
+  let best := b.zipIdx.foldl (fun (acc : Option (Nat × Rat)) (q : Itv × Nat) =>
+    match widthQ q.1 with
+    | none => acc
+    | some w => match acc with
+      | none => some (q.2, w)
+      | some (_, w0) => if w > w0 then some (q.2, w) else acc) none
+  match best with
+  | none => none
+  | some (i, w) =>
+    if w ≤ 0 then none else
+    match b[i]? with
+    | some (.mk (.fin lo) (.fin hi)) =>
+      let m := (lo + hi) / 2
+      some (b.set i (.mk (.fin lo) (.fin m)), b.set i (.mk (.fin m) (.fin hi)))
+    | _ => none
+
+/-- REFUTATION of "the box contains a zero": by interval evaluation on a subdivision of depth ≤ d -/
+def noZero (eqs : List (List Dag × Dag)) : Nat → Box → Bool
+  | 0, b => exclZero eqs b
+  | d + 1, b => exclZero eqs b ||
+    (match splitMid b with
+     | some (l, r) => Cover.split2Ok b l r && noZero eqs d l && noZero eqs d r
+     | none => false)
+
+/-- a contraction `i ↦ o` lost the exactly known zero `z` -/
+def lostZero (eqs : List (List Dag × Dag)) (i o : Box) (z : List Rat) : Bool :=
+  ratZero eqs z && ratIn z i && !ratIn z o
+
+/-- CERTIFICATE that a contraction of a square system kept ALL the zeros of the box: at most one zero in the
+    input box (uniqueness certificate) and it is known exactly and still in the output box -/
+def keptAllBy (eqs : List (List Dag × Dag)) (i o : Box) (z : List Rat) : Bool :=
+  Newton.uniqueCert eqs i && ratZero eqs z && ratIn z i && ratIn z o
+
+/-- CERTIFICATE that the box `s` contains a zero: the Krawczyk certificate on a sub-box `x` (`w`: any point of `x`,
+    it fixes the parameters) -/
+def hasZeroBy (eqs : List (List Dag × Dag)) (s x : Box) (vars : List Nat) (w : List Rat) : Bool :=
+  pointConsts eqs && Box.subset x s && Newton.existCertVars eqs x vars && ratIn w x
+
+/-- the midpoint of a box (any point when a component is unbounded) -/
+def midPoint (b : Box) : List Rat :=
+  b.map fun I => match I with
+    | .mk (.fin a) (.fin c) => (a + c) / 2
+    | .mk (.fin a) _ => a
+    | .mk _ (.fin c) => c
+    | _ => 0
+
 end Ibex.Verdict
